@@ -4,8 +4,8 @@
 # (2) demo fails with it, (3) demo passes without it. Writes /verif/.build/confirm/<name>.txt
 set -u
 OUT=/verif/.build/confirm; mkdir -p $OUT
-declare -A WT=( [C11a]=/tmp/wt-m1 [C11b]=/tmp/wt-m2 [C11c]=/tmp/wt-m3 [C18a]=/tmp/wt-m4 [C18b]=/tmp/wt-m5 [C18c]=/tmp/wt-m6 [C11d]=/tmp/wt-n11 [C11e]=/tmp/wt-n12 [C11f]=/tmp/wt-n13 [C11g]=/tmp/wt-n14 [C18d]=/tmp/wt-n15 [C18e]=/tmp/wt-n16 [C11h]=/tmp/wt-p21 [C11i]=/tmp/wt-p22 [C11j]=/tmp/wt-p23 [C11k]=/tmp/wt-p24 [C18f]=/tmp/wt-p25 [C18g]=/tmp/wt-p26 [C11l]=/tmp/wt-q31 [C11m]=/tmp/wt-q32 [C11n]=/tmp/wt-q33 [C11o]=/tmp/wt-q34 [C18h]=/tmp/wt-q35 [C18i]=/tmp/wt-q36 [C11p]=/tmp/wt-r41 [C11q]=/tmp/wt-r42 [C11r]=/tmp/wt-r43 [C11s]=/tmp/wt-r44 [C18j]=/tmp/wt-r45 [C18k]=/tmp/wt-r46 [C11t]=/tmp/wt-s51 [C11u]=/tmp/wt-s52 [C11v]=/tmp/wt-s53 [C11w]=/tmp/wt-s54 [C18l]=/tmp/wt-s55 [C18m]=/tmp/wt-s56 )
-declare -A BASE=( [C11a]=7c1ff7b [C11b]=7c1ff7b [C11c]=7c1ff7b [C18a]=7c1ff7b [C18b]=7c1ff7b [C18c]=7c1ff7b [C11d]=345b324 [C11e]=345b324 [C11f]=345b324 [C11g]=345b324 [C18d]=345b324 [C18e]=345b324 [C11h]=7c4ca94 [C11i]=7c4ca94 [C11j]=7c4ca94 [C11k]=7c4ca94 [C18f]=7c4ca94 [C18g]=7c4ca94 [C11l]=072e616 [C11m]=072e616 [C11n]=072e616 [C11o]=072e616 [C18h]=072e616 [C18i]=072e616 [C11p]=072e616 [C11q]=072e616 [C11r]=072e616 [C11s]=072e616 [C18j]=072e616 [C18k]=072e616 [C11t]=072e616 [C11u]=072e616 [C11v]=072e616 [C11w]=072e616 [C18l]=072e616 [C18m]=072e616 )
+declare -A WT=( [C11a]=/tmp/wt-m1 [C11b]=/tmp/wt-m2 [C11c]=/tmp/wt-m3 [C18a]=/tmp/wt-m4 [C18b]=/tmp/wt-m5 [C18c]=/tmp/wt-m6 [C11d]=/tmp/wt-n11 [C11e]=/tmp/wt-n12 [C11f]=/tmp/wt-n13 [C11g]=/tmp/wt-n14 [C18d]=/tmp/wt-n15 [C18e]=/tmp/wt-n16 [C11h]=/tmp/wt-p21 [C11i]=/tmp/wt-p22 [C11j]=/tmp/wt-p23 [C11k]=/tmp/wt-p24 [C18f]=/tmp/wt-p25 [C18g]=/tmp/wt-p26 [C11l]=/tmp/wt-q31 [C11m]=/tmp/wt-q32 [C11n]=/tmp/wt-q33 [C11o]=/tmp/wt-q34 [C18h]=/tmp/wt-q35 [C18i]=/tmp/wt-q36 [C11p]=/tmp/wt-r41 [C11q]=/tmp/wt-r42 [C11r]=/tmp/wt-r43 [C11s]=/tmp/wt-r44 [C18j]=/tmp/wt-r45 [C18k]=/tmp/wt-r46 [C11t]=/tmp/wt-s51 [C11u]=/tmp/wt-s52 [C11v]=/tmp/wt-s53 [C11w]=/tmp/wt-s54 [C18l]=/tmp/wt-s55 [C18m]=/tmp/wt-s56 [C11x]=/tmp/wt-t61 [C18n]=/tmp/wt-t62 )
+declare -A BASE=( [C11a]=7c1ff7b [C11b]=7c1ff7b [C11c]=7c1ff7b [C18a]=7c1ff7b [C18b]=7c1ff7b [C18c]=7c1ff7b [C11d]=345b324 [C11e]=345b324 [C11f]=345b324 [C11g]=345b324 [C18d]=345b324 [C18e]=345b324 [C11h]=7c4ca94 [C11i]=7c4ca94 [C11j]=7c4ca94 [C11k]=7c4ca94 [C18f]=7c4ca94 [C18g]=7c4ca94 [C11l]=072e616 [C11m]=072e616 [C11n]=072e616 [C11o]=072e616 [C18h]=072e616 [C18i]=072e616 [C11p]=072e616 [C11q]=072e616 [C11r]=072e616 [C11s]=072e616 [C18j]=072e616 [C18k]=072e616 [C11t]=072e616 [C11u]=072e616 [C11v]=072e616 [C11w]=072e616 [C18l]=072e616 [C18m]=072e616 [C11x]=072e616 [C18n]=072e616 )
 demo_cmd() { # $1 = dir, $2 = worktree
   if [ -f "$1/demo.sh" ]; then (cd "$1" && bash ./demo.sh "$2")
   elif [ -f "$1/run.sh" ]; then (cd "$1" && bash ./run.sh)
@@ -15,18 +15,22 @@ demo_cmd() { # $1 = dir, $2 = worktree
 }
 for g in "$@"; do
   wt=${WT[$g]}
+  if [ "${REUSE:-0}" = "1" ] && [ -d $wt ]; then  # keep the session's worktree (and its build output): saves a cold build
+    git -C $wt checkout -q -- . ; git -C $wt clean -fdq -e target
+  else
   git -C /repo worktree remove --force $wt 2>/dev/null; rm -rf $wt; git -C /repo worktree prune
   git -C /repo worktree add --detach $wt ${BASE[$g]} >/dev/null 2>&1 || { echo "$g: worktree failed"; continue; }
+  fi
   for k in 1 2; do
     d=/tmp/out-$g/$k; n=$g-$k; r=$OUT/$n.txt; : > $r
     [ -f $d/patch.diff ] || continue
-    git -C $wt checkout -q -- . ; git -C $wt clean -fdq
+    git -C $wt checkout -q -- . ; git -C $wt clean -fdq -e target
     if ! git -C $wt apply $d/patch.diff; then echo "$n: patch does not apply" | tee -a $r; continue; fi
     (cd $wt && cargo test --workspace --no-fail-fast --offline 2>&1 | grep -E "^test result" ) > $r.tests 2>&1
     passed=$(awk '{s+=$4} END{print s}' $r.tests); failed=$(awk '{s+=$6} END{print s}' $r.tests)
     echo "$n: with patch: tests passed=$passed failed=$failed" | tee -a $r
     demo_cmd $d $wt > $r.demo_with 2>&1; rc_with=$?
-    git -C $wt checkout -q -- . ; git -C $wt clean -fdq
+    git -C $wt checkout -q -- . ; git -C $wt clean -fdq -e target
     demo_cmd $d $wt > $r.demo_without 2>&1; rc_without=$?
     echo "$n: demo exit with patch=$rc_with, without patch=$rc_without" | tee -a $r
   done
